@@ -13,6 +13,7 @@
 package main
 
 import (
+	"bytes"
 	"context"
 	"encoding/binary"
 	"encoding/json"
@@ -21,6 +22,7 @@ import (
 	"os"
 	"os/exec"
 	"path/filepath"
+	"regexp"
 	"sort"
 	"strconv"
 	"strings"
@@ -203,6 +205,7 @@ func main() {
 				"VERIF_SCRATCH="+scratch,
 				"VERIF_BIN="+bin,
 				"VERIF_REPLAY="+*replay,
+				"VERIF_PROPERTY="+id,
 			)
 			if c.gomaxprocs != "" {
 				env = append(env, "GOMAXPROCS="+c.gomaxprocs)
@@ -384,6 +387,65 @@ func main() {
 			fmt.Printf("  %s\n", firstLines(v.Msg, 12))
 		}
 		exit(1)
+	}
+	if len(dead) > 0 && !timedOut && *replay == "" {
+		// A worker that died of a Go panic / fatal error inside golua (typically
+		// in a coroutine's goroutine, where the test cannot recover it) left the
+		// case it was running in "<partial>.inflight". Re-run that case alone in
+		// a fresh process: if golua kills that process too, the crash belongs to
+		// the case and is a violation with a replay; otherwise the death stays
+		// unexplained (inconclusive).
+		crashRe := regexp.MustCompile(`(?m)^(panic: |fatal error: )`)
+		golua := "github.com/arnodel/golua/"
+		reported := 0
+		for _, i := range dead {
+			lb, _ := os.ReadFile(results[i].log)
+			if !crashRe.Match(lb) || !bytes.Contains(lb, []byte(golua)) {
+				continue
+			}
+			marker := results[i].partial + ".inflight"
+			mb, err := os.ReadFile(marker)
+			if err != nil {
+				continue
+			}
+			confirmed := ""
+			for attempt := 0; attempt < 3 && confirmed == ""; attempt++ {
+				rctx, rcancel := context.WithTimeout(context.Background(), 5*time.Minute)
+				rlog := filepath.Join(scratch, fmt.Sprintf("crash-replay-%d-%d.txt", i, attempt))
+				rf, _ := os.Create(rlog)
+				rc := exec.CommandContext(rctx, bin, "-test.run", "^"+c.test+"$", "-test.timeout", "0", "-test.v", "-test.count", "1")
+				rc.Dir = filepath.Join(vdir, "props", strings.ToLower(id))
+				rc.Stdout, rc.Stderr = rf, rf
+				rc.SysProcAttr = &syscall.SysProcAttr{Setpgid: true}
+				rc.Cancel = func() error { return syscall.Kill(-rc.Process.Pid, syscall.SIGKILL) }
+				renv := append(goEnv(), "VERIF_DIR="+vdir, "VERIF_TIER="+*tier, "VERIF_SEED="+strconv.FormatUint(seed, 10), "VERIF_SHARD=0", "VERIF_NSHARDS=1",
+					"VERIF_OUT="+filepath.Join(scratch, fmt.Sprintf("crash-replay-%d-%d.json", i, attempt)), "VERIF_SCRATCH="+scratch, "VERIF_BIN="+bin, "VERIF_REPLAY="+marker, "VERIF_PROPERTY="+id)
+				if c.gomaxprocs != "" {
+					renv = append(renv, "GOMAXPROCS="+c.gomaxprocs)
+				}
+				rc.Env = renv
+				rc.Run()
+				rf.Close()
+				rcancel()
+				if rb, err := os.ReadFile(rlog); err == nil && crashRe.Match(rb) && bytes.Contains(rb, []byte(golua)) {
+					loc := crashRe.FindIndex(rb)
+					confirmed = firstLines(string(rb[loc[0]:]), 14)
+				}
+			}
+			if confirmed == "" {
+				continue
+			}
+			dir := filepath.Join(vdir, "replays", id)
+			os.MkdirAll(dir, 0o755)
+			path := filepath.Join(dir, fmt.Sprintf("crash-%016x.json", ev.Hash(string(mb))))
+			os.WriteFile(path, mb, 0o644)
+			fmt.Printf("VIOLATION property=%s replay=%s\n", id, path)
+			fmt.Printf("  golua killed the worker process while running this case, and again when the case was re-run alone in a fresh process:\n%s\n", confirmed)
+			reported++
+		}
+		if reported > 0 {
+			exit(1)
+		}
 	}
 	if len(dead) > 0 || timedOut {
 		for _, i := range dead {
